@@ -1047,8 +1047,19 @@ def eval_cli(s, bt, case):
     sel = "both" if all(engines) else ("engine0" if engines[0] else "engine1")
     cfg = {"output_folder": "out", "input_binary": "in.bin", "output_name": "enc", "header_name": "hdr", "engine_selection": sel,
            "engine_key_selection": "random", "base_address": hex(base), "bee_engine": []}
-    for e in engines:
-        if e:
+    pinned = {}
+    if case.get("binary_cfg"):
+        # `bee_binary_cfg` branch: the region headers come from files (exported through the API with pinned counter / KIB)
+        api = bee_make(dict(case, img=[0, 0]))
+        for i, (e, h) in enumerate(zip(engines, api.headers)):
+            if e:
+                pinned[i] = h.export()
+                with open(os.path.join(d, f"in_hdr{i}.bin"), "wb") as fh:
+                    fh.write(pinned[i])
+    for i, e in enumerate(engines):
+        if e and i in pinned:
+            cfg["bee_engine"].append({"bee_binary_cfg": {"header_path": f"in_hdr{i}.bin", "user_key": "0x" + e["key"]}})
+        elif e:
             cfg["bee_engine"].append({"bee_cfg": {"user_key": "0x" + e["key"], "protected_region": [
                 {"start_address": hex(st), "length": hex(ln), "protected_level": e.get("level", 0)} for st, ln in e["facs"]]}})
     with open(os.path.join(d, "cfg.json"), "w") as fh:
@@ -1059,6 +1070,13 @@ def eval_cli(s, bt, case):
     ct = rd("enc.bin")
     hdrs = [(e, rd(f"hdr{i}.bin")) for i, e in enumerate(engines) if e]
     s.expect(len(img) <= len(ct) <= ceil16(len(img)) and all(len(h) == 0x200 for _, h in hdrs), case, "nxpimage bee export: wrong size of a written file")
+    if pinned:
+        s.expect([h for _, h in hdrs] == [pinned[i] for i in sorted(pinned)], case,
+                 "nxpimage bee export (bee_binary_cfg): a region header read from a file is not written back unchanged")
+        from spsdk.image.bee import BeeNxp
+        r_api = pyres(lambda: BeeNxp(bee_make(dict(case, img=[0, 0])).headers, img, base).export_image())
+        s.expect(r_api[0] == "ok" and r_api[1][:len(img)] == ct[:len(img)] and len(r_api[1]) == len(ct), case,
+                 "nxpimage bee export (bee_binary_cfg): the written image differs from the API path with the same headers")
     i_hw = bt.add(f"bee_hwhdr {base} {tok(ct)} {len(hdrs)} " + " ".join(f"{e['key']} {tok(h)}" for e, h in hdrs))
     i_us = [(e, bt.add(f"bee_unhdr {e['key']} {tok(h)}")) for e, h in hdrs]
 
@@ -1085,6 +1103,7 @@ def gen_cli_cases(rng, n):
             while not all(e is None or e["facs"] for e in c["engines"]) or (c["engines"][0] is None and c["engines"][1] is None):
                 c = gen_bee_case(rng, False)
             c["k"] = "cli_bee"
+            c["binary_cfg"] = rng.random() < 0.5
             out.append(c)
         else:
             c = nx.pop(0)
